@@ -22,7 +22,7 @@ CLAIMS = {
              'Attribute/Required.validate accept a value iff it satisfies the declared min/max, integer size and signedness, max_len, nullability, '
              'required-ness and custom check, returning the normalised value, else raise ValueError; plus ground call-site obligations that creation, '
              'assignment, set(), get(), exists() and select(**kw) pass through attr.validate. BOUNDED value table for the Date / Datetime / Time / Timedelta / Bool / Blob / Uuid converters '
-             '(exact declared type, documented normal form, idempotent, wrong types rejected).',
+             '(exact declared type, documented normal form, idempotent, wrong types rejected), and for ArrayConverter.validate (3 item types x 14 item lists x 6 ways the value is given, tracked arrays of other attributes / objects included).',
         note='Ints mathematical, floats IEEE binary64 (bounds not NaN), Decimals exact reals (Decimal(d)==d stubbed), strings with uninterpreted length and '
              'strip (len(strip(s)) <= len(s)); max_len >= 1; py_check is an arbitrary boolean effect or one of 9 enumerated non-bool results judged by truth value. Type coercions of ill-typed values (str -> int, __index__) not covered.'),
     'C18': dict(
@@ -86,8 +86,8 @@ CLAIMS = {
              'lookup key, the key also pins vartypes, pinned parameter values, join syntax option and prefetch attributes, the entry is stored under the lookup key, the '
              'result-cache key contains the SQL key and the bound arguments, and a hit recomputes nothing; adapt_sql / parse_raw_sql on a symbolic statement text; '
              'decompile keyed by the identity of a code object that is kept alive; string2ast keyed by the exact source text. _get_translator pinned-value check BOUNDED (<= 2).',
-        note='Whole histories only BOUNDED (never counted as proved): warm-vs-cold differential on real SQLite over histories of <= 2 statements + core triples (thorough: all <= 3) out of 49 statement '
-             'kinds incl. modifications, flush / commit / rollback and hooks that query during flush; the run with every cache emptied before each statement is the oracle; and the per-entity SQL caches (_construct_sql_: 648 argument tuples incl. lock modes, _construct_batchload_sql_: 60) answer warm as cold under four warming orders. construct_sql_ast / ast2sql are recording stubs in the key '
+        note='Whole histories only BOUNDED (never counted as proved): warm-vs-cold differential on real SQLite over histories of <= 2 statements + core triples (thorough: all <= 3) out of 62 statement '
+             'kinds incl. modifications, flush / commit / rollback and hooks that query during flush; the run with every cache emptied before each statement is the oracle; and the per-entity SQL caches (_construct_sql_: 648 argument tuples incl. lock modes, _construct_batchload_sql_: 60) answer warm as cold under four warming orders; the cached DELETE statement of bulk deletes is covered by the 27-query bulk delete contract shared with C15. construct_sql_ast / ast2sql are recording stubs in the key '
              'contract: what they read beyond their arguments is translator state identified by query._key (assumed).'),
     'C04': dict(
         text='Proof over a finite generating set, enumerated completely on the real ast2src / PythonTranslator: for every (parent production, slot, child production) of '
@@ -129,7 +129,7 @@ CLAIMS = {
              'with a hand-written list; for every method of dict / list on TrackedDict / TrackedList / TrackedArray: mutators (incl. += *= |=, slice assignment, sort, reverse, '
              'popitem ...) report the change to the owner, give the builtin\'s result and wrap container arguments so that later nested changes are reported; non-mutating '
              'methods report nothing. Entity._attr_changed_ for every object status. End-to-end persistence of each mutator at nesting depth 1..4 on a real session is BOUNDED; '
-             'so are values moved into a loaded container from another object / attribute (13 ways x 5 origins) followed by a later nested change.',
+             'so are values moved into a loaded container from another object / attribute (13 ways x 5 origins) followed by a later nested change, and 16 replacements by ==-equal values of another JSON type (True / 1 / 1.0).',
         note='Ground obligations. The mutator list is tied to the running CPython (3.12): a new mutator in a later Python shows up as a start-up discrepancy (exit 3).'),
     'C34': dict(
         category='other',
@@ -153,7 +153,7 @@ CLAIMS = {
              'the new value is installed while the session\'s own unflushed write survives; volatile attributes carry no repeatable-read bit (_initialize_bits_); Attribute.__get__ '
              'sets the read bit exactly for attributes not yet written. The phantom rule for fully loaded collections is checked under C12.',
         note='Per-reload contracts; end to end only BOUNDED (never counted as proved): 5 attribute types x ordinary / boundary / missing values x 10 ways the object became known x a foreign '
-             'change x 4 ways of reading again (one known finding: None values of a new object are forgotten after the INSERT), the observed-collection scenarios (one-to-many), and a many-to-many collection observed in 5 ways x 5 foreign link changes x 6 ways of reloading incl. prefetch (one known finding: negative membership answers are not protected). Interleavings with concurrent '
+             'change x 4 ways of reading again (one known finding: None values of a new object are forgotten after the INSERT), the observed-collection scenarios (one-to-many), and a many-to-many collection observed in 5 ways x 5 foreign link changes x 6 ways of reloading incl. prefetch (one known finding: negative membership answers are not protected), and EntityMeta._set_rbits on results that mix the classes of one hierarchy (each object is marked by its own class\'s bits). Interleavings with concurrent '
              'committed writers (the schedules quantifier) are outside this technique and not claimed. A volatile attribute '
              'with an unflushed own write at reload time is excluded (not reachable through the API: queries flush first).'),
     'C20': dict(
@@ -181,7 +181,7 @@ CLAIMS = {
              'the dialect semantics of the specification library, so agreement between dialects is the corollary; plus boolean / NULL / integer literal forms per dialect value class. '
              'BOUNDED: the string functions (upper, lower, len, strip / lstrip / rstrip with and without chars, +, replace, nested) rendered by the real builders of all six dialect classes, the '
              'SQLite text executed, the others evaluated under each server\'s documented function semantics by a small interpreter of the emitted forms, each answer equal to Python\'s; the same for date parts, '
-             'date(), datetime +/- timedelta, date +/- days and differences on the generic / PostgreSQL / CockroachDB / MySQL / Oracle builders.',
+             'date(), datetime +/- timedelta, date +/- days and differences on the generic / PostgreSQL / CockroachDB / MySQL / Oracle builders. The locking form of a query (SELECT_FOR_UPDATE, shared with C35) names the same rows in the same order on every builder, Oracle\'s ROWID rewrite of limited queries included.',
         note='No PostgreSQL / MySQL / Oracle server or driver is available: server behaviour is represented by documented-semantics clauses (assumed contracts on dependencies; SQLite clauses are '
              'validated against the real engine). Only mechanisms under contract are compared, not whole queries. Known findings of C25 / C06 reappear here, plus MySQL strip() with several characters and the clipped MySQL TIMEDIFF.'),
     'C17': dict(
@@ -200,7 +200,7 @@ CLAIMS = {
              '(SQLite: plain); get_for_update (pk / unique / lambda), Query.for_update on a real model: the locking read runs with cache.immediate inside the open (BEGIN IMMEDIATE) transaction, '
              'hands SELECT_FOR_UPDATE with the options to the builder, is not answered from the cache for an object loaded without a lock, registers the object in cache.for_update; '
              'ledger sessions (SQLite, PostgreSQL) for for_update / serializable / pessimistic modes over every fault point, also when the application catches the error of a locking read and retries it in the same session: protected reads never run in autocommit mode, PostgreSQL '
-             'SERIALIZABLE is set inside the transaction before them, and that transaction is not ended before the body ends; db_session option table; commit empties the locked set.',
+             'SERIALIZABLE is set inside the transaction before them, and that transaction is not ended before the body ends; db_session option table; commit empties the locked set; for_update / nowait / skip_locked are fields of the constructed-SQL key and of the result-cache key (contract shared with C05).',
         note='Schedules of two or three sessions (who waits, who fails, final values versus serial executions) are NOT covered: outside contract-based verification. '
              'Row-lock / write-lock / SERIALIZABLE semantics are the database\'s contract (assumed).'),
     'C14': dict(
@@ -225,7 +225,7 @@ CLAIMS = {
              'many-to-many) x cascade_delete option (default / True / False) x reverse side required / optional x reference declared on the root entity or on a subclass x dependents present or not x loaded or not x obj.delete() / Query.delete() / '
              'Query.delete(bulk=True) the real Entity._delete_ / flush / generated schema behave as the property states: cascading dependents are deleted (in the session and in the database), '
              'optional references are cleared, a required dependent without cascade refuses the delete at the call with ConstraintError (bulk: database error) and nothing changes, and the '
-             'committed database has no dangling reference (PRAGMA foreign_key_check + anti-join). Also the finite table: Attribute.linked default and the ON DELETE clause in the DDL follow the rule.',
+             'committed database has no dangling reference (PRAGMA foreign_key_check + anti-join). A bulk delete removes exactly the rows its query selects and leaves the database of the object-by-object delete (27 queries incl. aggregated conditions, subclasses, joins, subqueries). Also the finite table: Attribute.linked default and the ON DELETE clause in the DDL follow the rule.',
         note='All-bounded: reported as level other, never as proved. Two entities per shape, at most two dependents; SQLite only (ON DELETE behaviour of other servers is their contract).'),
     'C33': dict(
         text='PARTIAL: finite proof of the hook dispatch tables (Entity._before_save_ / _after_save_ over every status) and of SessionCache.call_after_save_hooks (each recorded entry '
